@@ -332,19 +332,37 @@ func c06(c *h.Ctx) {
 	// elements are finding K1 against the specification's layout; in the layout the library itself writes, the bytes it
 	// produced must come back as all the elements, consumed to the last byte, and what follows the array in an enclosing
 	// object must still be read as what it is ("never silently skipped or mis-sized").
-	largeNs := []int{4097, 5000}
+	largeNs := []int{4097, 5000, 70000}
 	if c.Thorough() {
-		largeNs = []int{4095, 4096, 4097, 5000, 9000, 70000}
+		largeNs = []int{4095, 4096, 4097, 5000, 9000, 70000, 200000}
 	}
 	for _, n := range largeNs {
+		// the model executable is compared up to 9000 elements (its list operations make it slow beyond that); the larger
+		// sizes are checked on the implementation alone, against the hand-written bytes
+		withOracle := n <= 9000
 		kv := make([]interface{}, 0, 2*n)
 		for i := 0; i < n; i++ {
 			kv = append(kv, fmt.Sprintf("k%d", i), num(uint64(0x4000000000000000)+uint64(i)))
 		}
 		for _, kind := range []byte{'o', 'a'} {
 			big := container(kind, uint32(n), kv...)
-			c06SpecToLib(c, fmt.Sprintf("large/%c/%d", kind, n), big)
-			c06LibToSpec(c, fmt.Sprintf("large/%c/%d", kind, n), big)
+			if withOracle {
+				c06SpecToLib(c, fmt.Sprintf("large/%c/%d", kind, n), big)
+				c06LibToSpec(c, fmt.Sprintf("large/%c/%d", kind, n), big)
+				continue
+			}
+			bs := big.wire(nil)
+			id := fmt.Sprintf("container %c of %d elements, bytes written by hand from the specification", kind, n)
+			d := libDecode(bs)
+			got := d.class
+			ok := false
+			if d.class == "ok" {
+				again, _ := libMarshal(d.val)
+				ok = amfStr(d.val) == big.text() && d.consumed == len(bs) && d.val.Size() == len(bs) && bytes.Equal(again, bs)
+				got = fmt.Sprintf("consumed=%d size=%d re-encoded=%d bytes", d.consumed, d.val.Size(), len(again))
+			}
+			c.Hold(ok, "spec_to_lib", id, got, fmt.Sprintf("consumed=%d size=%d re-encoded=%d bytes", len(bs), len(bs), len(bs)))
+			c.Case(fmt.Sprintf("large/%c/%d", kind, n), id, true)
 		}
 		sa := container('t', uint32(n), kv...)
 		outer := container('o', 0, "first", str("x"), "list", sa, "after", num(0x3ff0000000000000), "last", str("y"))
@@ -363,8 +381,10 @@ func c06(c *h.Ctx) {
 				got = fmt.Sprintf("consumed=%d size=%d re-encoded=%d bytes value=%s", d.consumed, d.val.Size(), len(again), h.Trunc(amfStr(d.val), 200))
 			}
 			c.Hold(ok, "lib_layout.large_strict_array", id, got, fmt.Sprintf("consumed=%d size=%d re-encoded=%d bytes value=%s", len(bs), len(bs), len(bs), h.Trunc(nd.text(), 200)))
-			hx := h.Hex(bs)
-			c.Eq("spec_to_lib.dec", "amf0.dec "+h.Trunc(hx, 300), h.Trunc(d.decLine(bs), 1500), h.Trunc(c.O.Call("amf0.dec", hx), 1500))
+			if withOracle {
+				hx := h.Hex(bs)
+				c.Eq("spec_to_lib.dec", "amf0.dec "+h.Trunc(hx, 300), h.Trunc(d.decLine(bs), 1500), h.Trunc(c.O.Call("amf0.dec", hx), 1500))
+			}
 			c.Case(fmt.Sprintf("large/t/%d", n), id, true)
 		}
 	}
